@@ -44,6 +44,8 @@ def run(ctx):
             cc = charge_conjugate_name(c)
             if cc != n:
                 res.violation("conjugating twice does not return the original", case, impl=[c, cc], clause="involution")
+        if pid % 7 == seed % 7:
+            res.remember({"call": "charge_conjugate_name", "name": n}, lambda n=n: charge_conjugate_name(n), c)
         res.case(n if known else None, {"name": n, "conjugate": c} if len(res.samples) < 3 and known else None)
         res.count("evtgen_known" if known else "evtgen_no_known_conjugate")
 
@@ -81,6 +83,7 @@ def run(ctx):
         if n in name2id:
             continue
         c = charge_conjugate_name(n)
+        res.remember({"call": "charge_conjugate_name", "name": n}, lambda n=n: charge_conjugate_name(n), c)
         res.case()
         res.count("unknown_labels")
         if c != wrapped(n):
